@@ -3,7 +3,7 @@
     ScanStore ([Scannable] and per-segment facts), ScanIter (forward iterator). *)
 From Coq Require Import NArith List Bool Lia Arith.
 From SV Require Import Model.StoreIter.
-From SV Require Export Proofs.ScanRecs Proofs.ScanSeg Proofs.ScanPos Proofs.ScanStore Proofs.ScanIter.
+From SV Require Export Proofs.ScanRecs Proofs.ScanSeg Proofs.ScanPos Proofs.ScanStore Proofs.ScanIter Proofs.ScanRev.
 Import ListNotations.
 Open Scope N_scope.
 
@@ -118,7 +118,7 @@ Lemma cp_loop_wf recs gs : wf_recs recs gs -> forall r off,
 Proof.
   induction 1 as [|g es r0 gs Hg Hr IH]; intros r off.
   - cbn. rewrite Nat.add_0_r. reflexivity.
-  - rewrite <- app_assoc. destruct Hg as [e He|es tx Hne Hall].
+  - rewrite <- app_assoc. destruct Hg as [e He|es tx c Hne Hall].
     + cbn [app cp_loop]. rewrite He. rewrite IH. cbn [length].
       replace (S off + length r0)%nat with (off + S (length r0))%nat by lia. reflexivity.
     + destruct es as [|e es]; [congruence|]. inversion Hall as [|? ? [Hf Ht] Hall']; subst.
@@ -160,7 +160,7 @@ Qed.
 
 (** ** checking [Scannable] on a concrete store (for the Examples) *)
 Definition enc (es : list event) : list rec :=
-  match gkind es with None => map REvent es | Some (tx, c) => map REvent es ++ [RCommit tx c] end.
+  if gflag es then map REvent es else map REvent es ++ [RCommit (gtx es) (N.of_nat (length es))].
 Definition gvalidb (es : list event) : bool :=
   match es with
   | [] => false
@@ -171,7 +171,7 @@ Definition gvalidb (es : list event) : bool :=
 Lemma wf_enc gs : forallb gvalidb gs = true -> wf_recs (concat (map enc gs)) gs.
 Proof.
   induction gs as [|es gs IH]; intros H; [constructor|]. cbn in H. apply andb_prop in H. destruct H as [Hv H].
-  cbn [map concat]. constructor; [|auto]. unfold enc, gkind. destruct es as [|e r]; [discriminate|].
+  cbn [map concat]. constructor; [|auto]. unfold enc, gflag, gtx. destruct es as [|e r]; [discriminate|].
   cbn in Hv. destruct (e_flag e) eqn:Hf.
   - destruct r; [|discriminate]. constructor. assumption.
   - apply WG_multi; [discriminate|]. constructor; [auto|]. apply Forall_forall. intros x Hx.
@@ -194,15 +194,229 @@ Lemma Scannable_check s k :
   seg_wf (pubrecs s) (s_idx (live s)) ->
   map (key_pos k) (filter (matches k) (all_events (abs_visible s)))
     = map N.of_nat (seq 0 (length (filter (matches k) (all_events (abs_visible s))))) ->
-  forallb (fun e => key_pos k e <=? U64MAX) (all_events (abs_visible s)) = true ->
   forallb same_pidb (abs_visible s) = true ->
   Scannable s k.
 Proof.
-  intros H1 H2 H3 H4 H5 H6. constructor; auto.
-  - intros e He _. eapply forallb_forall in H5; [|exact He]. apply N.leb_le. assumption.
-  - apply same_pid_closed. intros g e e' Hg He He'. eapply forallb_forall in H6; [|exact Hg].
+  intros H1 H2 H3 H4 H6. constructor; auto.
+  apply same_pid_closed. intros g e e' Hg He He'. eapply forallb_forall in H6; [|exact Hg].
     destruct g as [|x r]; [contradiction|]. cbn in H6.
     assert (Hx : forall y, In y (x :: r) -> e_pid y = e_pid x).
     { intros y [<-|Hy]; [reflexivity|]. eapply forallb_forall in H6; [|exact Hy]. apply N.eqb_eq. assumption. }
     rewrite (Hx e He), (Hx e' He'). reflexivity.
 Qed.
+
+(** ** reverse *)
+Theorem reverse_groups s k from limit : Scannable s k -> U64ok s k -> (0 < limit)%nat ->
+  exists batches, scan s k from Rev limit = Some batches /\
+    map committed_events (concat batches) = Erev k from (abs_visible s) /\
+    Forall (fun b => 1 <= length b <= limit)%nat batches.
+Proof. intros HS HU Hl. apply scan_rev; [assumption|assumption|lia]. Qed.
+
+Lemma reverse_groups' s k from limit batches : Scannable s k -> U64ok s k -> (0 < limit)%nat ->
+  scan s k from Rev limit = Some batches ->
+  map committed_events (concat batches) = Erev k from (abs_visible s).
+Proof.
+  intros HS HU Hl H. destruct (reverse_groups s k from limit HS HU Hl) as (b & H1 & H2 & _). congruence.
+Qed.
+
+Lemma ksufp_split k es x : In x (ksufp k es) ->
+  exists pre rest, es = pre ++ fst x :: rest /\ matches k (fst x) = true /\ snd x = filter (matches k) rest.
+Proof.
+  induction es as [|e es IH]; [contradiction|]. cbn. intros H. apply in_app_or in H. destruct H as [H|H].
+  - destruct (matches k e) eqn:Hm; [|contradiction]. destruct H as [<-|[]]. exists [], es. cbn. auto.
+  - destruct (IH H) as (pre & rest & -> & H2 & H3). exists (e :: pre), rest. auto.
+Qed.
+
+Lemma ksufp_has k es e : In e es -> matches k e = true -> exists tl, In (e, tl) (ksufp k es).
+Proof.
+  induction es as [|e0 es IH]; [contradiction|]. intros [->|Hin] Hm; cbn.
+  - rewrite Hm. eexists. left. reflexivity.
+  - destruct (IH Hin Hm) as [tl Htl]. exists tl. apply in_or_app. right. assumption.
+Qed.
+
+(* every returned group: a key event at or before [from] followed by the key's later events of its
+   transaction (so it is a suffix of the key's events of exactly one stored transaction) *)
+Theorem reverse_group_shape s k from limit batches : Scannable s k -> U64ok s k -> (0 < limit)%nat ->
+  scan s k from Rev limit = Some batches ->
+  Forall (fun l => exists t pre e rest, In t (abs_visible s) /\ t = pre ++ e :: rest /\
+                     matches k e = true /\ key_pos k e <= from /\ l = e :: filter (matches k) rest)
+         (map committed_events (concat batches)).
+Proof.
+  intros HS HU Hl H. rewrite (reverse_groups' _ _ _ _ _ HS HU Hl H). apply Forall_forall. intros l Hin.
+  unfold Erev in Hin. apply in_rev in Hin. apply in_map_iff in Hin. destruct Hin as (x & <- & Hx).
+  apply filter_In in Hx. destruct Hx as [Hx Hle]. apply in_concat in Hx. destruct Hx as (ks & Hks & Hx).
+  apply in_map_iff in Hks. destruct Hks as (t & <- & Ht).
+  destruct (ksufp_split _ _ _ Hx) as (pre & rest & Ht' & Hm & Hs).
+  exists t, pre, (fst x), rest. unfold hle in Hle. apply N.leb_le in Hle. unfold ucons. rewrite Hs. auto.
+Qed.
+
+(* the events at or before [from] that occur in the result are exactly those of the specification *)
+Theorem reverse_exact s k from limit batches : Scannable s k -> U64ok s k -> (0 < limit)%nat ->
+  scan s k from Rev limit = Some batches ->
+  forall e, In e (filter (fun e => key_pos k e <=? from) (scan_events batches)) <->
+            In e (filter (fun e => matches k e && (key_pos k e <=? from)) (all_events (abs_visible s))).
+Proof.
+  intros HS HU Hl H e. unfold scan_events. rewrite (reverse_groups' _ _ _ _ _ HS HU Hl H).
+  rewrite !filter_In. unfold Erev. split.
+  - intros [Hin Hp]. apply in_concat in Hin. destruct Hin as (l & Hl' & He). apply in_rev in Hl'.
+    apply in_map_iff in Hl'. destruct Hl' as (x & <- & Hx). apply filter_In in Hx. destruct Hx as [Hx _].
+    apply in_concat in Hx. destruct Hx as (ks & Hks & Hx). apply in_map_iff in Hks. destruct Hks as (t & <- & Ht).
+    destruct (ksufp_in _ _ _ Hx) as (H1 & H2 & H3).
+    assert (In e t /\ matches k e = true) as [Het Hm] by (destruct He as [<-|He]; [auto|apply H3; assumption]).
+    split; [|rewrite Hm, Hp; reflexivity]. unfold all_events. apply in_concat. exists t. auto.
+  - intros [Hin Hp]. apply andb_prop in Hp. destruct Hp as [Hm Hp]. split; [|assumption].
+    unfold all_events in Hin. apply in_concat in Hin. destruct Hin as (t & Ht & Het).
+    destruct (ksufp_has k t e Het Hm) as [tl Htl].
+    apply in_concat. exists (ucons (e, tl)). split; [|left; reflexivity].
+    apply in_rev. rewrite rev_involutive. apply in_map. apply filter_In. split; [|exact Hp].
+    apply in_concat. exists (ksufp k t). split; [apply in_map; assumption|assumption].
+Qed.
+
+Theorem reverse_all s k limit batches : Scannable s k -> U64ok s k -> (0 < limit)%nat ->
+  scan s k U64MAX Rev limit = Some batches ->
+  forall e, In e (scan_events batches) <-> (In e (all_events (abs_visible s)) /\ matches k e = true).
+Proof.
+  intros HS HU Hl H e. pose proof (reverse_exact s k U64MAX limit batches HS HU Hl H e) as Hx.
+  rewrite !filter_In in Hx. split.
+  - intros Hin.
+    (* every returned event is a stored event of the key *)
+    assert (Hk : In e (all_events (abs_visible s)) /\ matches k e = true).
+    { unfold scan_events in Hin. rewrite (reverse_groups' _ _ _ _ _ HS HU Hl H) in Hin.
+      apply in_concat in Hin. destruct Hin as (l & Hl' & He). unfold Erev in Hl'. apply in_rev in Hl'.
+      apply in_map_iff in Hl'. destruct Hl' as (x & <- & Hx'). apply filter_In in Hx'. destruct Hx' as [Hx' _].
+      apply in_concat in Hx'. destruct Hx' as (ks & Hks & Hx'). apply in_map_iff in Hks. destruct Hks as (t & <- & Ht).
+      destruct (ksufp_in _ _ _ Hx') as (H1 & H2 & H3).
+      assert (In e t /\ matches k e = true) as [Het Hm] by (destruct He as [<-|He]; [auto|apply H3; assumption]).
+      split; [|assumption]. unfold all_events. apply in_concat. exists t. auto. }
+    exact Hk.
+  - intros [Hin Hm]. apply Hx. split; [assumption|]. rewrite Hm. cbn. apply N.leb_le. apply HU; assumption.
+Qed.
+
+(* the first elements of successive groups have positions n-1, n-2, .., 0 (n = number of groups) *)
+Definition head_pos (k : skey) (l : list event) : N := match l with e :: _ => key_pos k e | [] => 0 end.
+
+Lemma ksufp_log_posincr k : forall (log : alog) c, posincr k (fun e => e) c (concat log) ->
+  posincr k fst c (concat (map (ksufp k) log)).
+Proof.
+  induction log as [|g log IH]; intros c H; [exact I|]. cbn [map concat] in *.
+  apply posincr_app in H. destruct H as [H1 H2]. apply posincr_app. split; [apply ksufp_posincr; assumption|].
+  rewrite ksufp_count. apply IH. assumption.
+Qed.
+
+Lemma posincr_all_positions k {A} (ev : A -> event) : forall l c, posincr k ev c l ->
+  Forall (fun x => mt k ev x = true) l ->
+  map (fun x => key_pos k (ev x)) l = map (fun i => c + N.of_nat i) (seq 0 (length l)).
+Proof.
+  induction l as [|x l IH]; intros c H HF; [reflexivity|]. inversion HF as [|? ? Hx HF']; subst.
+  cbn [posincr] in H. rewrite Hx in H. destruct H as [H1 H2]. cbn [map length seq]. f_equal; [lia|].
+  rewrite (IH _ H2 HF'). rewrite <- seq_shift, map_map. apply map_ext. intros i. lia.
+Qed.
+
+Theorem reverse_heads s k from limit batches : Scannable s k -> U64ok s k -> (0 < limit)%nat ->
+  scan s k from Rev limit = Some batches ->
+  let groups := map committed_events (concat batches) in
+  map (head_pos k) groups = map N.of_nat (rev (seq 0 (length groups))).
+Proof.
+  intros HS HU Hl H groups. subst groups. rewrite (reverse_groups' _ _ _ _ _ HS HU Hl H). unfold Erev.
+  set (KK := concat (map (ksufp k) (abs_visible s))).
+  assert (Hp : posincr k fst 0 KK).
+  { apply ksufp_log_posincr. pose proof (all_posincr s k HS) as Hp. rewrite <- all_events_Ls in Hp. exact Hp. }
+  assert (Hall : Forall (fun x => mt k fst x = true) KK).
+  { unfold KK. apply Forall_forall. intros x Hx. apply in_concat in Hx. destruct Hx as (ks & Hks & Hx).
+    apply in_map_iff in Hks. destruct Hks as (t & <- & _). pose proof (ksufp_all k t) as HF.
+    eapply Forall_forall in HF; eauto. }
+  assert (Hf : filter (hle k from) KK = firstn (count_le from 0 (length KK)) KK).
+  { transitivity (filter (qle k fst from) KK).
+    - apply filter_ext_in. intros x Hx. unfold qle, hle. eapply Forall_forall in Hall; [|exact Hx]. rewrite Hall. reflexivity.
+    - rewrite (posincr_filter_le k fst _ _ from Hp). unfold kcount. rewrite (filter_all _ _ Hall). reflexivity. }
+  rewrite Hf. set (m := count_le from 0 (length KK)). rewrite rev_length, map_length.
+  rewrite map_rev, map_map. rewrite <- map_rev. f_equal.
+  assert (Hfirst : posincr k fst 0 (firstn m KK) /\ Forall (fun x => mt k fst x = true) (firstn m KK)).
+  { split; [|apply Forall_firstn'; assumption]. rewrite <- (firstn_skipn m KK) in Hp. apply posincr_app in Hp. tauto. }
+  destruct Hfirst as [Hp1 Hall1]. rewrite map_rev. f_equal.
+  change (fun x : event * list event => head_pos k (ucons x)) with (fun x : event * list event => key_pos k (fst x)).
+  rewrite (posincr_all_positions k fst _ _ Hp1 Hall1). rewrite <- map_rev. apply map_ext. intros i. lia.
+Qed.
+
+(** ** no scan fails *)
+Theorem never_error s k from d limit : Scannable s k -> (d = Rev -> U64ok s k) -> scan s k from d limit <> None.
+Proof.
+  intros HS HU. destruct limit as [|n]; [unfold scan; cbn; discriminate|].
+  destruct d.
+  - destruct (forward_groups s k from (S n) HS ltac:(lia)) as (b & -> & _). discriminate.
+  - destruct (reverse_groups s k from (S n) HS (HU eq_refl) ltac:(lia)) as (b & -> & _). discriminate.
+Qed.
+
+Theorem reverse_independent s1 s2 k from limit : Scannable s1 k -> Scannable s2 k -> U64ok s1 k ->
+  abs_visible s1 = abs_visible s2 -> (0 < limit)%nat ->
+  exists b1 b2, scan s1 k from Rev limit = Some b1 /\ scan s2 k from Rev limit = Some b2 /\
+    map committed_events (concat b1) = map committed_events (concat b2).
+Proof.
+  intros H1 H2 HU Heq Hl.
+  assert (HU2 : U64ok s2 k) by (unfold U64ok in *; rewrite <- Heq; exact HU).
+  destruct (reverse_groups s1 k from limit H1 HU Hl) as (b1 & Hs1 & Hg1 & _).
+  destruct (reverse_groups s2 k from limit H2 HU2 Hl) as (b2 & Hs2 & Hg2 & _).
+  exists b1, b2. repeat split; auto. rewrite Hg1, Hg2, Heq. reflexivity.
+Qed.
+
+(** ** forward: shape of the groups -- each is the key's part of one stored transaction; all but
+    the first are whole, the first may be cut at [from] (it is then the suffix from [from]) *)
+Lemma Efwd_from_le k from : forall (log : alog) c, posincr k (fun e => e) c (concat log) -> from <= c ->
+  Efwd k from log = filter nonnil (map (filter (matches k)) log).
+Proof.
+  intros log c Hp Hle. unfold Efwd. f_equal. apply map_ext_in. intros t Ht. apply filter_ext_in. intros e He.
+  unfold Pge. destruct (matches k e) eqn:Hm; [|reflexivity]. cbn.
+  assert (Hin : In e (concat log)) by (apply in_concat; exists t; auto).
+  destruct (posincr_bounds k (fun e => e) _ _ _ Hp Hin Hm) as [Hb _]. apply N.leb_le. lia.
+Qed.
+
+Lemma Efwd_whole_after k from : forall (log : alog) c, posincr k (fun e => e) c (concat log) ->
+  forall pre l rest, Efwd k from log = pre ++ l :: rest -> pre <> [] ->
+  exists t, In t log /\ l = filter (matches k) t.
+Proof.
+  induction log as [|t log IH]; intros c Hp pre l rest HE Hpre.
+  - destruct pre; discriminate.
+  - cbn [concat] in Hp. apply posincr_app in Hp. destruct Hp as [Hp1 Hp2].
+    unfold Efwd in HE. cbn [map filter] in HE. fold (Efwd k from log) in HE.
+    destruct (filter (Pge k from) t) as [|x xs] eqn:Hf; cbn [nonnil] in HE.
+    + destruct (IH _ Hp2 pre l rest HE Hpre) as (t' & Ht' & Hl). exists t'. split; [right|]; assumption.
+    + destruct pre as [|p0 pre']; [congruence|]. cbn [app] in HE. inversion HE as [[H0 HE']].
+      assert (Hx : In x (filter (Pge k from) t)) by (rewrite Hf; left; reflexivity).
+      apply filter_In in Hx. destruct Hx as [Hxin Hxp]. unfold Pge in Hxp. apply andb_prop in Hxp.
+      destruct Hxp as [Hxm Hxle]. apply N.leb_le in Hxle.
+      destruct (posincr_bounds k (fun e => e) _ _ _ Hp1 Hxin Hxm) as [_ Hub].
+      rewrite (Efwd_from_le k from log _ Hp2) in HE' by lia.
+      assert (Hl : In l (filter nonnil (map (filter (matches k)) log))).
+      { rewrite HE'. apply in_or_app. right. left. reflexivity. }
+      apply filter_In in Hl. destruct Hl as [Hl _]. apply in_map_iff in Hl. destruct Hl as (t' & <- & Ht').
+      exists t'. split; [right; assumption|reflexivity].
+Qed.
+
+Theorem forward_group_shape s k from limit batches : Scannable s k -> (0 < limit)%nat ->
+  scan s k from Fwd limit = Some batches ->
+  let groups := map committed_events (concat batches) in
+  Forall (fun l => exists t pre, In t (abs_visible s) /\ l <> [] /\
+                     l = filter (fun e => matches k e && (from <=? key_pos k e)) t /\
+                     filter (matches k) t = pre ++ l) groups /\
+  (forall pre l rest, groups = pre ++ l :: rest -> pre <> [] ->
+     exists t, In t (abs_visible s) /\ l = filter (matches k) t).
+Proof.
+  intros HS Hl H groups. subst groups.
+  destruct (forward_groups s k from limit HS Hl) as (b & H1 & H2 & _).
+  assert (b = batches) by congruence. subst b. rewrite H2.
+  pose proof (all_posincr s k HS) as Hp. rewrite <- all_events_Ls in Hp. unfold all_events in Hp.
+  split.
+  - apply Forall_forall. intros l Hin. unfold Efwd in Hin. apply filter_In in Hin. destruct Hin as [Hin Hnn].
+    apply in_map_iff in Hin. destruct Hin as (t & <- & Ht).
+    destruct (in_split _ _ Ht) as (a & b & Hab). rewrite Hab in Hp. rewrite concat_app in Hp. cbn [concat] in Hp.
+    apply posincr_app in Hp. destruct Hp as [_ Hp]. apply posincr_app in Hp. destruct Hp as [Hp _].
+    exists t, (firstn (clamp_sub from (0 + N.of_nat (kcount k (fun e => e) (concat a))) (kcount k (fun e => e) t)) (filter (matches k) t)).
+    split; [assumption|]. split; [destruct (filter (Pge k from) t); [discriminate|discriminate]|].
+    split; [reflexivity|].
+    change (Pge k from) with (qge k (fun e : event => e) from).
+    rewrite (posincr_filter_ge k (fun e => e) _ _ from Hp). symmetry. apply firstn_skipn.
+  - intros pre l rest HE Hpre. eapply Efwd_whole_after; eauto.
+Qed.
+
+Lemma U64ok_check s k : forallb (fun e => key_pos k e <=? U64MAX) (all_events (abs_visible s)) = true -> U64ok s k.
+Proof. intros H e He _. eapply forallb_forall in H; [|exact He]. apply N.leb_le. assumption. Qed.
